@@ -676,3 +676,91 @@ def _seq_task(ety, tag, with_times):
 
 
 SEQ_TASKS = [_seq_task(("opt", ("real",)), "prices", True), _seq_task(("opt", ("real",)), "prices", False), _seq_task(("int",), "counters", True)]
+
+
+# ----------------------------------------------------------------------------- the public accessors read THEIR OWN series (C06 history, C08 statistics): a table of thin wrappers
+ACCESSOR_TABLE = {
+    "get_market_price": ("_market_prices", False, False), "get_market_prices": ("_market_prices", True, False),
+    "get_mid_price": ("_mid_prices", False, True), "get_mid_prices": ("_mid_prices", True, True),
+    "get_last_executed_price": ("_last_executed_prices", False, True), "get_last_executed_prices": ("_last_executed_prices", True, True),
+    "get_fundamental_price": ("_fundamental_prices", False, False), "get_fundamental_prices": ("_fundamental_prices", True, False),
+    "get_executed_volume": ("_executed_volumes", False, False), "get_executed_volumes": ("_executed_volumes", True, False),
+    "get_executed_total_price": ("_executed_total_prices", False, False), "get_executed_total_prices": ("_executed_total_prices", True, False),
+    "get_n_buy_order": ("_n_buy_orders", False, False), "get_n_buy_orders": ("_n_buy_orders", True, False),
+    "get_n_sell_order": ("_n_sell_orders", False, False), "get_n_sell_orders": ("_n_sell_orders", True, False),
+}
+
+
+@task("Market accessors read their own series", props=["C06", "C08"], functions=["Market." + k for k in ACCESSOR_TABLE] + ["Market.get_time", "Market.get_best_buy_price", "Market.get_best_sell_price",
+                                                                                                                       "Market.get_buy_order_book", "Market.get_sell_order_book"], replay="market_ops")
+def t_accessor_table():
+    """every public getter hands exactly its own series (and the caller's time argument) to the checked extraction functions, with `None` allowed only for the mid and last-trade series;
+    the quote getters read the book of their own side"""
+    from pyvc.spec import Executor
+    obl = []; infos = []
+    src = get_src_m()
+    for name, (series, plural, allow_none) in ACCESSOR_TABLE.items():
+        ex = Executor(current="Market." + name)
+        calls = []
+
+        def mk(kind):
+            def h(ex_, st, recv, pos, kw, node, kind=kind):
+                st = st.copy()
+                names = ("times" if kind == "seq" else "time", "parameters", "allow_none")
+                a = dict(zip(names, pos)); a.update(kw)
+                st.ghost["calls"] = st.ghost.get("calls", ()) + ((kind, recv, a),)
+                ety = a["parameters"].ty[1] if a["parameters"].ty[0] == "list" else ("dyn",)
+                res = V(("list", ety), st.new_ref("extracted")) if kind == "seq" else fresh(ety if ety[0] == "opt" else ("opt", ety), "extracted")
+                return [(st, res)]
+            return h
+        ex.specs[("m", "Market", "_extract_data_by_time")] = mk("one")
+        ex.specs[("m", "Market", "_extract_sequential_data_by_time")] = mk("seq")
+        st = State(); st.labels = ["Market." + name]
+        m = sym_obj("Market", "the_market"); st.assume_alloc(m)
+        if plural:
+            targ = V(("opt", ("list", ("int",))), z3.Const("times_arg", REF), none=z3.Bool("times_arg?"))
+        else:
+            targ = V(("opt", ("int",)), z3.Int("time_arg"), none=z3.Bool("time_arg?"))
+        outs = ex.call_method(m, name, [], {"times" if plural else "time": targ}, st, 0, None)
+        n = 0
+        for s1, res in outs:
+            n += 1
+            cs = s1.ghost.get("calls", ())
+            if len(cs) != 1:
+                s1.oblige(f"trace:exactly one extraction per query (got {len(cs)})", z3.BoolVal(False), "trace"); continue
+            kind, recv, a = cs[0]
+            an = a.get("allow_none")
+            an_term = z3.BoolVal(False) if an is None else an.term
+            targ_ok = (a["times" if plural else "time"].term == targ.term) if a.get("times" if plural else "time") is not None else z3.BoolVal(False)
+            s1.oblige(f"post:{name} reads the series {series} of this market for the requested time(s); None allowed: {allow_none}",
+                      z3.And(z3.BoolVal(kind == ("seq" if plural else "one")), recv.term == m.term, a["parameters"].term == s1.read(m, series).term, targ_ok, an_term == z3.BoolVal(allow_none)), "post")
+        for s_, k_, v_ in ex.escaped:
+            s_.oblige(f"no-raise:{v_[0]}@{v_[1]}", z3.BoolVal(False), "no-raise")
+        obl += st.obl
+        obl.append({"name": f"Market.{name}/cover:paths", "pc": [], "goal": z3.BoolVal(n >= 1), "kind": "cover"})
+        infos.append({"function": "Market." + name, "source_sha": src.source_hash("Market." + name), "where": src.where("Market." + name), "paths": n, "assumptions": sorted(ex.used_assumptions)})
+    # quote getters and the clock
+    for name, book, meth in (("get_best_buy_price", "buy_order_book", "get_best_price"), ("get_best_sell_price", "sell_order_book", "get_best_price"),
+                             ("get_buy_order_book", "buy_order_book", "get_price_volume"), ("get_sell_order_book", "sell_order_book", "get_price_volume")):
+        ex = Executor(current="Market." + name)
+
+        def hq(ex_, st, recv, pos, kw, node):
+            st = st.copy(); st.ghost["qcalls"] = st.ghost.get("qcalls", ()) + (recv,)
+            return [(st, fresh(("opt", ("real",)), "quote") if meth == "get_best_price" else V(("dict", ("real",), ("int",)), st.new_ref("depth")))]
+        ex.specs[("m", "OrderBook", meth)] = hq
+        st = State(); st.labels = ["Market." + name]
+        m = sym_obj("Market", "the_market"); st.assume_alloc(m)
+        outs = ex.call_method(m, name, [], {}, st, 0, None)
+        for s1, res in outs:
+            q = s1.ghost.get("qcalls", ())
+            s1.oblige(f"post:{name} asks the {book} of this market", z3.And(z3.BoolVal(len(q) == 1), q[0].term == s1.read(m, book).term) if len(q) == 1 else z3.BoolVal(False), "post")
+        obl += st.obl
+        obl.append({"name": f"Market.{name}/cover:paths", "pc": [], "goal": z3.BoolVal(len(outs) >= 1), "kind": "cover"})
+        infos.append({"function": "Market." + name, "source_sha": src.source_hash("Market." + name), "where": src.where("Market." + name), "paths": len(outs), "assumptions": []})
+    ex = Executor(current="Market.get_time")
+    st = State(); st.labels = ["Market.get_time"]
+    m = sym_obj("Market", "the_market"); st.assume_alloc(m)
+    for s1, res in ex.call_method(m, "get_time", [], {}, st, 0, None):
+        s1.oblige("post:get_time is the market's clock", res.term == s1.read(m, "time").term, "post")
+    obl += st.obl
+    return {"obligations": obl, "info": infos}
